@@ -24,6 +24,9 @@ Lemma pol_mapM_seq_ok {B : Type} (g : nat -> sp_res B) (h : nat -> B) : forall n
   (forall i, (a <= i < a + n)%nat -> g i = SpOk (h i)) -> sp_mapM g (seq a n) = SpOk (map h (seq a n)).
 Proof. intros n a H. apply sp_mapM_ok. intros i Hi. apply in_seq in Hi. apply H. lia. Qed.
 
+Lemma pol_nth_map' {A B : Type} (f : A -> B) l i da db : (i < length l)%nat -> nth i (map f l) db = f (nth i l da).
+Proof. intros H. rewrite (nth_indep _ db (f da)) by (rewrite map_length; exact H). apply map_nth. Qed.
+
 Section PolTheory.
 Variable F : Type.
 Variable K : sp_ops F.
@@ -282,6 +285,62 @@ Theorem pol_impl_node_spec rmin rmax mfh q r d0 k1 k1q dk k2q :
     SpOk ((k2q, pol_clip F K rmin rmax (r + (snd d0 + snd dk) * mfh)),
           (pol_qdiff F K pi_ k2q k1q, pol_abs F K (pol_clip F K rmin rmax (r + (snd d0 + snd dk) * mfh) - snd k1))).
 Proof. intros H1 H2 H3. unfold pol_impl_node. rewrite H1. cbn [sp_bind]. rewrite H2. cbn [sp_bind]. rewrite H3. reflexivity. Qed.
+
+(** the implicit kernel, inverted: start state, loop, final evaluation *)
+Theorem pol_step_impl_returns fuel out n :
+  pol_step_impl F K E feq pi_ dt v B0 nul rPts qPts phi pol tol fuel = PolRet (SpOk (out, n)) ->
+  exists rmin rmax mfh D0 st0 st norm,
+    pol_impl_start F K E dt B0 rPts qPts phi = SpOk (rmin, rmax, mfh, D0, st0) /\
+    loop fuel rmin rmax mfh D0 st0 0%nat = PolRet (SpOk (st, norm, n)) /\
+    gmapM (fun i j => fill rmin rmax (pol_at2 F K st i j)) = SpOk out.
+Proof.
+  unfold pol_step_impl. intros H.
+  destruct (pol_impl_start F K E dt B0 rPts qPts phi) as [[[[[rmin rmax] mfh] D0] st0]| | | |]; cbn [pol_lift] in H; try discriminate.
+  destruct (loop fuel rmin rmax mfh D0 st0 0%nat) as [r|] eqn:EL; [|discriminate].
+  destruct r as [[[st norm] sweeps]| | | |]; cbn [pol_lift] in H; try discriminate.
+  destruct (gmapM (fun i j => fill rmin rmax (pol_at2 F K st i j))) as [o| | | |] eqn:EG; cbn [pol_lift] in H; try discriminate.
+  injection H as <- <-. exists rmin, rmax, mfh, D0, st0, st, norm. repeat split; assumption.
+Qed.
+
+(** the state with which the loop is entered: divided derivatives of the potential at the nodes
+    and the explicit Euler feet *)
+Theorem pol_impl_start_inv (Hev : pol_ev_sound E) rmin rmax mfh D0 st0 :
+  pol_impl_start F K E dt B0 rPts qPts phi = SpOk (rmin, rmax, mfh, D0, st0) ->
+  rmin = hd 0 rPts /\ rmax = last rPts 0 /\ mfh = sp_half F K * (dt / B0) /\
+  forall i j, (i < nq)%nat -> (j < nr)%nat -> exists a b,
+    scalar phi (nth i qPts 0) (nth j rPts 0) 0%nat 1%nat = SpOk a /\
+    scalar phi (nth i qPts 0) (nth j rPts 0) 1%nat 0%nat = SpOk b /\
+    speqb K (nth j rPts 0) 0 = false /\
+    pol_at2 F K D0 i j = (a / nth j rPts 0, b / nth j rPts 0) /\
+    pol_at2 F K st0 i j = (nth i qPts 0 - a / nth j rPts 0 * (dt / B0), nth j rPts 0 + b / nth j rPts 0 * (dt / B0)).
+Proof.
+  unfold pol_impl_start. intros H.
+  apply pol_bind_inv in H. destruct H as [[[[[mf D0r] D0q] rmin'] rmax'] [Hp H]].
+  destruct (pol_prelude_inv Hev _ _ _ _ _ Hp) as [_ [Emf [Ermin [Ermax [_ Hsc]]]]].
+  apply pol_bind_inv in H. destruct H as [ini [Hi H]]. injection H as <- <- <- <- <-.
+  split; [exact Ermin|]. split; [exact Ermax|]. split; [rewrite Emf; reflexivity|].
+  destruct (pol_grid_mapM_inv _ ((0, 0), (0, 0)) _ Hi) as [Hl Hn].
+  intros i j Hi' Hj. destruct (Hsc i j Hi' Hj) as [Ha Hb].
+  exists (pol_at F K D0r i j), (pol_at F K D0q i j). split; [exact Ha|]. split; [exact Hb|].
+  destruct (Hn i Hi') as [Hl2 Hn2]. specialize (Hn2 j Hj). unfold pol_impl_init, pol_d0 in Hn2.
+  destruct (speqb K (nth j rPts 0) 0) eqn:Er; [discriminate|]. cbn [sp_bind fst snd] in Hn2.
+  split; [reflexivity|]. injection Hn2 as Hn2. unfold pol_at2.
+  rewrite (pol_nth_map' (map fst) ini i [] []) by lia.
+  rewrite (pol_nth_map' fst (nth i ini []) j ((0, 0), (0, 0)) (0, 0)) by lia.
+  rewrite (pol_nth_map' (map snd) ini i [] []) by lia.
+  rewrite (pol_nth_map' snd (nth i ini []) j ((0, 0), (0, 0)) (0, 0)) by lia.
+  rewrite <- Hn2, Emf. split; reflexivity.
+Qed.
+
+(** a 2-cycle of the sweep with norm > tol at both points never leaves the loop *)
+Theorem pol_impl_loop_cycle rmin rmax mfh D0 sA sB nA nB :
+  sweep rmin rmax mfh D0 sA = SpOk (sB, nA) -> sweep rmin rmax mfh D0 sB = SpOk (sA, nB) ->
+  pol_ltb F K tol nA = true -> pol_ltb F K tol nB = true ->
+  forall fuel done, loop fuel rmin rmax mfh D0 sA done = PolOutOfFuel /\ loop fuel rmin rmax mfh D0 sB done = PolOutOfFuel.
+Proof.
+  intros HA HB TA TB. induction fuel as [|fuel IH]; intros done; [split; reflexivity|].
+  cbn [pol_impl_loop]. rewrite HA, HB, TA, TB. split; apply IH.
+Qed.
 
 End PolTheory.
 
